@@ -3,7 +3,10 @@ import { A, show, head, isAtom } from "./sx.mjs";
 import crypto from "node:crypto";
 
 const LENS = [0, 1, 3, 54, 55, 56, 57, 62, 63, 64, 65, 118, 119, 120, 121, 127, 128, 129, 191, 192, 300];
-const STRS = ["", "a", "string", "é", "日本語", "😀", "x".repeat(55), "y".repeat(56), "z".repeat(64), "k\u0000k", "a\"b\\c\n"];
+// (long non-ASCII strings: up to 128 UTF-16 code units but more UTF-8 bytes than that, and the other way round)
+const STRS = ["", "a", "string", "é", "日本語", "😀", "x".repeat(55), "y".repeat(56), "z".repeat(64), "k\u0000k", "a\"b\\c\n",
+  "é".repeat(64), "é".repeat(65), "é".repeat(128), "あ".repeat(42), "あ".repeat(43) + "_a", "あ".repeat(43) + "_b", "あ".repeat(128), "あ".repeat(129),
+  "😀".repeat(32), "😀".repeat(33), "😀".repeat(64), "😀".repeat(65), "w".repeat(128), "w".repeat(129), "é".repeat(64) + "_a", "é".repeat(64) + "_b"];
 const NUMS = ["0", "-0", "NaN", "1", "-1", "1.5", "1e+21", "Infinity", "-Infinity", "123456789012", "0.1"];
 
 function hexOf(rng, n) {
